@@ -18,8 +18,7 @@ import vlib
 LEVEL = "model_checking"
 
 
-def keyset(n):
-    return "{" + ", ".join(str(i) for i in range(n)) + "}"
+KOFF = 2     # the key universe of every configuration is -KOFF .. nkeys-1-KOFF (negative keys included)
 
 
 CONFIGS = {
@@ -33,7 +32,7 @@ RECORD = {"quick": (12, 800, 12), "thorough": (40, 3000, 16)}   # traces, ops, k
 def replay_cases(ctx, binary, cases, nkeys, tag):
     results = ctx.path("results-%s.ndjson" % tag)
     shapes = ctx.path("shapes-%s.ndjson" % tag)
-    ctx.run([binary, "replay", cases, results, shapes, str(nkeys - 1)], timeout=1200)
+    ctx.run([binary, "replay", cases, results, shapes, str(-KOFF), str(nkeys - 1 - KOFF)], timeout=1200)
     summary = None
     nviol = 0
     for r in vlib.iter_ndjson(results):
@@ -51,7 +50,7 @@ def replay_cases(ctx, binary, cases, nkeys, tag):
 
 def check_trace(ctx, binary, ntr, nops, nkeys, seed, tag):
     trace = ctx.path("avl_trace-%s.ndjson" % tag)
-    ctx.run([binary, "record", trace, str(ntr), str(nops), str(nkeys)], env={"VERIF_SEED": str(seed)})
+    ctx.run([binary, "record", trace, str(ntr), str(nops), str(nkeys), str(-KOFF)], env={"VERIF_SEED": str(seed)})
     n = 0
     clean = trace + ".clean"
     with open(clean, "w") as out:
@@ -66,7 +65,7 @@ def check_trace(ctx, binary, ntr, nops, nkeys, seed, tag):
     trace = clean
     ok, bad, why = vlib.validate_trace(ctx, "AvlTrace", "AvlTrace.cfg", "avl_trace.ndjson", trace,
                                        timeout=1800, label="trace-" + tag,
-                                       consts={"Keys": keyset(max(nkeys, 1))})
+                                       consts={"NK": str(max(nkeys, 1)), "KOff": str(KOFF)})
     return trace, n, ok, bad, why
 
 
@@ -80,7 +79,7 @@ def run(ctx):
     for label, nk, ni, emit in CONFIGS[tier]:
         out = ctx.path("cases-%s.ndjson" % label) if emit else None
         res = ctx.tlc("AvlTree", "AvlTree_it.cfg", timeout=3000, label=label, json_out=out,
-                      consts={"Keys": keyset(nk), "NI": str(ni), "Emit": "TRUE" if emit else "FALSE"})
+                      consts={"NK": str(nk), "KOff": str(KOFF), "NI": str(ni), "Emit": "TRUE" if emit else "FALSE"})
         ctx.log("AvlTree %s: %d distinct states, %d transitions, %d cases" % (label, res.distinct, res.generated, res.json_count))
         if emit:
             if res.json_count == 0:
@@ -146,7 +145,7 @@ def run(ctx):
             for e in events:
                 f.write(json.dumps(e) + "\n")
         ok2, bad2, _ = vlib.validate_trace(ctx, "AvlTrace", "AvlTrace.cfg", "avl_trace.ndjson", bad_trace,
-                                           label="selftest", consts={"Keys": keyset(nkeys)})
+                                           label="selftest", consts={"NK": str(nkeys), "KOff": str(KOFF)})
         if ok2 or bad2 != idx + 1:
             raise vlib.Infra("binding self-test failed: corrupted trace accepted=%s at=%s want=%s" % (ok2, bad2, idx + 1))
         # and a structural corruption (balance factor) must be rejected too
@@ -157,7 +156,7 @@ def run(ctx):
             for e in events:
                 f.write(json.dumps(e) + "\n")
         ok3, bad3, _ = vlib.validate_trace(ctx, "AvlTrace", "AvlTrace.cfg", "avl_trace.ndjson", bad_trace,
-                                           label="selftest2", consts={"Keys": keyset(nkeys)})
+                                           label="selftest2", consts={"NK": str(nkeys), "KOff": str(KOFF)})
         if ok3:
             raise vlib.Infra("binding self-test failed: corrupted balance factor accepted")
         ctx.extra["binding_selftest"] = "corrupted return value rejected at event %d; corrupted balance factor rejected" % (idx + 1)
@@ -198,7 +197,7 @@ def replay(ctx, path):
             f.write(json.dumps({"hist": rec.get("hist", []), "obs": {"ret": True, "S": [], "its": []}}) + "\n")
         results = ctx.path("r.ndjson")
         shapes = ctx.path("avl_shapes.ndjson")
-        ctx.run([binary, "replay", cases, results, shapes, "16"])
+        ctx.run([binary, "replay", cases, results, shapes, "-4", "16"])
         ok, bad, why = vlib.validate_trace(ctx, "AvlShapes", "AvlShapes.cfg", "avl_shapes.ndjson", shapes, label="shapes")
         if not ok:
             ctx.violation({"engine": "replay", "what": "structure"}, d)
